@@ -23,7 +23,7 @@ let find_cls (d : Uml.cdiagram) id =
 
 let ventry e =
   let ((((c, r), n), ps), k) = Uml.signature e in
-  L [S (Uml.decl_line e); S (Uml.def_head e); L [S c; S r; S n; L (List.map (fun (t, x) -> L [S t; S x]) ps); vbool k]]
+  L [S (Uml.decl_line e); S (Uml.def_head e); L [S c; S r; S n; L (List.map (fun (t, x) -> L [S t; S x]) ps); vbool k]; S e.Uml.en_owner]
 let vopt_entries = function None -> L [] | Some es -> L [L (List.map ventry es)]
 
 let () =
